@@ -1897,8 +1897,17 @@ insert_list:
         auto& counter = CURRENT->semaphore_count;
         counter = count;
         DEFER(counter = 0);
+        bool resumed = false;
         while (!try_subtract(count)) {
+            uint64_t cnt;
+            if (resumed && !m_ooo_resume && (cnt = m_count.load())) {
+                // resumed for tokens that someone else has taken meanwhile:
+                // we go back to the tail of the queue, so pass the wake-up
+                // on to the waiters that the remaining count does cover
+                try_resume(cnt);
+            }
             int ret = waitq::wait_defer(timeout, spinlock_unlock, &splock);
+            resumed = true;
             splock.lock();  // assuming errno NOT changed
             if (unlikely(ret < 0)) {    // got interrupted
                 uint64_t cnt;
